@@ -433,3 +433,9 @@ pub fn park() {
         None => std::thread::park(),
     }
 }
+
+/// Whether this build of the crate has its debug assertions compiled in (the simulator runs some
+/// enumerations against both kinds of build).
+pub fn debug_assertions_on() -> bool {
+    cfg!(debug_assertions)
+}
